@@ -334,6 +334,24 @@ impl TemplateJob {
                 }
                 asg.push(([None; 6], vec![(i, true), (i, true), (i, false), (i, false)]));
             }
+            // the order in which the host makes its allow / forbid calls is its own business: seeded on/off
+            // assignments made through calls in a seeded order (the `perms` array is always applied in
+            // declaration order), some permissions set twice
+            let mut rng = Prng::new(seed ^ 0x6f72_6465_72);
+            for _ in 0..(if assignments == "ternary" { 96 } else { 24 }) {
+                let mut calls: Vec<(usize, bool)> = vec![];
+                for i in 0..6 {
+                    if rng.below(5) != 0 {
+                        calls.push((i, rng.below(2) == 0));
+                    }
+                }
+                if rng.chance(1, 3) && !calls.is_empty() {
+                    let again = calls[rng.below(calls.len() as u64) as usize].0;
+                    calls.push((again, rng.below(2) == 0));
+                }
+                rng.shuffle(&mut calls);
+                asg.push(([None; 6], calls));
+            }
         }
         if out.samples.len() < 2 {
             out.samples.push(json!({"kind": "template", "steps": encode(&tpl.steps), "program": tpl.text, "sites_at_instantiate": tpl.inst_sites.iter().map(|p| PERM_NAMES[*p]).collect::<Vec<_>>(),
